@@ -83,6 +83,14 @@ def gen_cases(rnd, thorough):
         cases.append(("str_join!(char sep)", "konst::string::str_join!('%s', &%s)" % (c, pieces), "%s.join(&'%s'.to_string())" % (pieces, c), "sep=%s pieces=x,,yz" % c))
         cases.append(("str_join!(&char sep)", "konst::string::str_join!(&'%s', &%s)" % (c, pieces), "%s.join(&'%s'.to_string())" % (pieces, c), "sep=&%s pieces=x,,yz" % c))
         cases.append(("str_join!(str sep)", "konst::string::str_join!(\"%s\", &%s)" % (c, pieces), "%s.join(\"%s\")" % (pieces, c), "sep=str %s pieces=x,,yz" % c))
+    # long lists (a helper that recurses per piece meets the const evaluator's stack-frame limit at ~126 pieces)
+    for n in (125, 126, 130, 300):
+        outer = "&[%s]" % ", ".join(["&[1, 2]", "&[]", "&[7]"][i % 3] for i in range(n))
+        cases.append(("slice_concat!(u8)", "&konst::slice::slice_concat!(u8, %s)" % outer, "{ let o: &[&[u8]] = %s; o.concat() }" % outer, "outer=%d inner slices" % n))
+        parr = "([%s] as [&str; %d])" % (", ".join(rs_str(["a", "", "ñ", "bc"][i % 4]) for i in range(n)), n)
+        cases.append(("str_concat!(&[..])", "konst::string::str_concat!(&%s)" % parr, "%s.concat()" % parr, "pieces=%d strings" % n))
+        cases.append(("str_join!(str sep)", "konst::string::str_join!(\", \", &%s)" % parr, "%s.join(\", \")" % parr, "sep=', ' pieces=%d strings" % n))
+        cases.append(("from_iter!(&[&str])", "konst::string::from_iter!(&%s)" % parr, "%s.iter().copied().collect::<String>()" % parr, "pieces=%d strings" % n))
     for rng, rev in (("'a'..='e'", False), ("'\\u{D7FE}'..='\\u{E001}'", False), ("'x'..'x'", False), ("'a'..='e'", True)):
         cases.append(("from_iter!(char range)", "konst::string::from_iter!(%s%s)" % (rng, ", rev()" if rev else ""), "(%s)%s.collect::<String>()" % (rng, ".rev()" if rev else ""), rng))
     # slice_concat!
